@@ -1,7 +1,6 @@
 //! C07 — allocation failure is reported as an error and leaves all state intact; overflowing requests are errors;
 //! panicking methods never return normally when memory is refused.
 use crate::common::*;
-use crate::step::Win;
 use bump_scope::alloc::Allocator;
 use bump_scope::settings::BumpAllocatorSettings;
 use bump_scope::{BaseAllocator, Bump, BumpVec, MutBumpVec};
